@@ -685,13 +685,18 @@ def run_transpose(case, out):
 
     R, C, el = case["rows"], case["cols"], case["el"]
     vals = [(v * case["mul"] + 1) % 100 for v in range(R * C)]
+    maps = case.get("maps", "in")
+    T, I = "affine_map<(d0, d1) -> (d1, d0)>", "affine_map<(d0, d1) -> (d0, d1)>"
+    # which side is indexed transposed: the input (the usual form), the output, or both (a plain copy with interchanged loops)
+    m_in, m_out = {"in": (T, I), "out": (I, T), "both": (T, T)}[maps]
+    oR, oC = (R, C) if maps == "both" else (C, R)
     src = (
-        f"builtin.module {{\n  func.func @f() -> tensor<{C}x{R}x{el}> {{\n"
+        f"builtin.module {{\n  func.func @f() -> tensor<{oR}x{oC}x{el}> {{\n"
         f"    %c = arith.constant dense<{nested(vals, [R, C])}> : tensor<{R}x{C}x{el}>\n"
-        f"    %e = tensor.empty() : tensor<{C}x{R}x{el}>\n"
-        f'    %t = linalg.generic {{indexing_maps = [affine_map<(d0, d1) -> (d1, d0)>, affine_map<(d0, d1) -> (d0, d1)>], iterator_types = ["parallel", "parallel"]}} '
-        f"ins(%c : tensor<{R}x{C}x{el}>) outs(%e : tensor<{C}x{R}x{el}>) {{\n    ^bb0(%in: {el}, %o: {el}):\n      linalg.yield %in : {el}\n    }} -> tensor<{C}x{R}x{el}>\n"
-        f"    func.return %t : tensor<{C}x{R}x{el}>\n  }}\n}}"
+        f"    %e = tensor.empty() : tensor<{oR}x{oC}x{el}>\n"
+        f'    %t = linalg.generic {{indexing_maps = [{m_in}, {m_out}], iterator_types = ["parallel", "parallel"]}} '
+        f"ins(%c : tensor<{R}x{C}x{el}>) outs(%e : tensor<{oR}x{oC}x{el}>) {{\n    ^bb0(%in: {el}, %o: {el}):\n      linalg.yield %in : {el}\n    }} -> tensor<{oR}x{oC}x{el}>\n"
+        f"    func.return %t : tensor<{oR}x{oC}x{el}>\n  }}\n}}"
     )
     try:
         ctx, mod = compat.parse(src)
@@ -708,7 +713,7 @@ def run_transpose(case, out):
         out["probes"]["constant-not-transformed"] = 1
         return out
     got = [int(v) for v in d.value.get_values()]
-    want = [vals[r * C + c] for c in range(C) for r in range(R)]
+    want = list(vals) if maps == "both" else [vals[r * C + c] for c in range(C) for r in range(R)]
     if got != want:
         k = next(i for i, (x, y) in enumerate(zip(got, want)) if x != y)
         out.update(status="violation", oracle="constant-relayout", message=f"transposed {R}x{C} constant: element ({k // R}, {k % R}) of the result is {got[k]}, the transpose has {want[k]}")
@@ -756,7 +761,7 @@ def run_const(case, out):
 
 def gen_case(rng, tier):
     if rng.random() < 0.05:
-        return {"fam": "transpose", "rows": rng.randint(1, 5), "cols": rng.randint(1, 5), "el": rng.choice(["i8", "i32"]), "mul": rng.choice([1, 3, 7])}
+        return {"fam": "transpose", "rows": rng.randint(1, 5), "cols": rng.randint(1, 5), "el": rng.choice(["i8", "i32"]), "mul": rng.choice([1, 3, 7]), "maps": rng.choice(["in", "in", "out", "both"])}
     if rng.random() < 0.3:
         from .c05 import gen_steps
 
